@@ -917,6 +917,18 @@ func (c *Conn) lateDataResets() {
 	c.wr.doReset()
 }
 
+// InFlightTotal returns the number of bytes written on any connection and not yet delivered.
+func (n *Net) InFlightTotal() int {
+	n.mu.Lock()
+	conns := append([]*Conn(nil), n.conns...)
+	n.mu.Unlock()
+	t := 0
+	for _, c := range conns {
+		t += c.InFlight()
+	}
+	return t
+}
+
 // Room returns how many more bytes this end may write before a real writer would block.
 func (c *Conn) Room() int { c.wr.mu.Lock(); defer c.wr.mu.Unlock(); return c.wr.room() }
 
